@@ -898,7 +898,36 @@ func (fr *Frame) canInlineDeferred(fn *ssa.Function) bool {
 }
 
 func (fr *Frame) siteSend(st *State, x *ssa.Send) {
-	fr.siteGeneric(st, "send", x.Chan.Name(), map[string]Val{"sent": fr.val(st, x.X)})
+	for _, n := range fr.sourceNames(st, x.Chan) {
+		fr.siteGeneric(st, "send", n, map[string]Val{"sent": fr.val(st, x.X)})
+	}
+}
+
+// sourceNames: the source-level variable names currently bound to the value of v (plus its SSA name).
+func (fr *Frame) sourceNames(st *State, v ssa.Value) []string {
+	out := []string{v.Name()}
+	if u, ok := v.(*ssa.UnOp); ok {
+		// value loaded from a variable that lives in memory (captured by a closure): named after that variable
+		if al, ok := u.X.(*ssa.Alloc); ok && identRe.MatchString(al.Comment) {
+			out = append(out, al.Comment)
+		}
+		if fv, ok := u.X.(*ssa.FreeVar); ok {
+			out = append(out, fv.Name())
+		}
+	}
+	tv, ok := fr.val(st, v).(TV)
+	if !ok {
+		return out
+	}
+	for _, name := range sortedKeys(st.vars) {
+		if strings.HasPrefix(name, "&") || strings.HasPrefix(name, "iter#") {
+			continue
+		}
+		if x, ok := st.vars[name].(TV); ok && x.S == tv.S {
+			out = append(out, name)
+		}
+	}
+	return out
 }
 
 func (fr *Frame) siteRecv(st *State, x *ssa.UnOp, v TV) {
@@ -921,6 +950,27 @@ func (fr *Frame) selectOp(st *State, x *ssa.Select) {
 		out[i] = r.freshOf(st, "selrecv", tup.At(i).Type())
 	}
 	st.env[x] = out
+	// receiving from ctx.Done(): the context has ended
+	for i, sc := range x.States {
+		if sc.Dir != types.RecvOnly || fr.doneChans == nil {
+			continue
+		}
+		if ch, ok := fr.val(st, sc.Chan).(TV); ok {
+			if ctx, ok := fr.doneChans[ch.S]; ok {
+				name := r.eng.regHeap("GH_ctxdone", "(Array Iface Bool)", nil)
+				h := r.heapGet(st, name)
+				r.heapSet(st, name, app("store", h, ctx, or(app("select", h, ctx), eq(idx.S, num(int64(i))))))
+			}
+		}
+	}
+	// a send case of the select is a send site
+	for _, sc := range x.States {
+		if sc.Dir == types.SendOnly && sc.Send != nil {
+			for _, n := range fr.sourceNames(st, sc.Chan) {
+				fr.siteGeneric(st, "send", n, map[string]Val{"sent": fr.val(st, sc.Send)})
+			}
+		}
+	}
 }
 
 // ---------------------------------------------------------------------------------------------
